@@ -48,6 +48,14 @@ TWINS = [
     ('skoolkit/snaskool.py', r"        comment_width = max\(self\.comment_width - op_width - 8, self\.config\['CommentWidthMin'\]\)\n", "        room = self.comment_width - op_width - 8\n        comment_width = max(room, self.config['CommentWidthMin'])\n", 'SkoolWriter._write_body: comment column through a local'),
     ('skoolkit/skoolasm.py', r"            lines = self\.format\(paragraph, self\.desc_width\)\n", "            width = self.desc_width\n            lines = self.format(paragraph, width)\n", 'print_comment_lines: width through a local'),
     ('skoolkit/__init__.py', r"    WRAPPER\.width = width\n    return WRAPPER\.wrap\(text\)\n", "    w = WRAPPER\n    w.width = width\n    return w.wrap(text)\n", 'wrap: the wrapper through a local alias'),
+    ('skoolkit/loadtracer.py', r"registers\[acc\.counter\], registers\[1\] = DEC0\[counter - loops \+ 1\]", "registers[acc.counter], registers[1] = DEC0[counter + 1 - loops]", '_read_port: commute the DEC table index'),
+    ('c/csimulator.c', r"DEC\[0\]\[counter - loops \+ 1\]", "DEC[0][counter + 1 - loops]", 'C read_port: commute the DEC table index'),
+    ('skoolkit/simulator.py', r"                if bc == 0 or pc <= de <= pc \+ 1:\n                    repeat = False\n", "                done = bc == 0 or pc <= de <= pc + 1\n                if done:\n                    repeat = False\n", 'ldir_fast: name the stop test'),
+    ('skoolkit/rzxplay.py', r"                registers\[1\] &= 0b11111011\n", "                registers[1] = registers[1] & 251\n", 'process_block: P/V reset written out'),
+    ('skoolkit/tap2sna.py', r"        accelerators\.clear\(\)\n        options\.accelerate_dec_a = 0\n", "        options.accelerate_dec_a = 0\n        accelerators.clear()\n", 'sim_load: swap two independent settings'),
+    ('skoolkit/tape.py', r"                b = data\[-1\]\n                for j in range\(timings\.used_bits\):\n                    for d in timings\.one if b & 0x80 else timings\.zero:\n                        tstates \+= d\n                        edges\.append\(tstates\)\n                    b \*= 2\n", "                last = data[-1]\n                for j in range(timings.used_bits):\n                    pulses = timings.one if last & (0x80 >> j) else timings.zero\n                    for d in pulses:\n                        tstates += d\n                        edges.append(tstates)\n", 'get_edges: last byte by bit mask instead of shifting'),
+    ('skoolkit/skoolutils.py', r"                self\.num_cols = max\(self\.num_cols, col_index \+ cell\.colspan\)\n", "                end_col = col_index + cell.colspan\n                if end_col > self.num_cols:\n                    self.num_cols = end_col\n", 'Table.prepare_cells: column count through a local'),
+    ('skoolkit/snactl.py', r"        if ctl != 'c' and i_addr \+ size > limit:", "        cut_off = i_addr + size > limit\n        if cut_off and ctl != 'c':", '_find_terminal_instruction: name the cut-off test'),
 ]
 
 # which checks read which source file (a twin is only run against the checks that can see it)
@@ -67,6 +75,8 @@ READERS = {
     'skoolkit/loadtracer.py': {'C06', 'C08', 'C10', 'C13', 'C20'},
     'skoolkit/skoolmacro.py': {'C04', 'C15', 'C16', 'C17'},
     'skoolkit/skoolctl.py': {'C03'},
+    'skoolkit/tap2sna.py': {'C12', 'C13'},
+    'skoolkit/skoolutils.py': {'C01', 'C03', 'C04', 'C14', 'C17', 'C18'},
     'skoolkit/ctlparser.py': {'C01', 'C03', 'C14', 'C18'},
     'skoolkit/snaskool.py': {'C01', 'C03', 'C14', 'C18'},
     'skoolkit/skoolasm.py': {'C04', 'C17', 'C18'},
